@@ -79,6 +79,8 @@ def register(E):
     @model(r'^<std::vec::Vec as std::iter::IntoIterator>::into_iter$|^<\[T; \d+\] as std::iter::IntoIterator>::into_iter$|^<std::vec::IntoIter as std::iter::IntoIterator>::into_iter$|^<(.+) as std::iter::IntoIterator>::into_iter$')
     def _(E, st, callee, a, m):
         v = d(st, a[0])
+        if isinstance(v, Obj) and v.kind == 'Set':
+            return [(T, Obj('SeqIter', (tuple(v.data), 0)))]
         if isinstance(v, Obj) and v.kind in ('SeqIter', 'Bytes', 'Chars', 'ByteRefIter', 'CharIndices') or isinstance(v, Obj) and v.kind.endswith('Iter'):
             return [(T, v)]
         if isinstance(v, (Seq,)) or isinstance(v, Obj) and v.kind == 'Vec':
@@ -170,7 +172,87 @@ def register(E):
         return out
     E.fold_pred = fold_pred
 
+    @model(r'^<(?!std::|core::|alloc::)(.+) as std::iter::Iterator>::(find|any|all)$')
+    def _(E, st, callee, a, m):
+        """provided Iterator methods on a crate-local iterator: the std default bodies (a loop over `next`), run on the
+        crate's own `next`; bounded by the engine's loop bound"""
+        op = m.group(2)
+        cs = callee.strip()
+        inner = cs[1:cs.rindex('>::')]
+        nxt = FnItem('<' + inner + '>::next')
+        clo = a[1]
+        results = []
+        bound = E.loop_bound or 64
+
+        def rec(st_cur, n, pre):
+            if n > bound:
+                raise Inconclusive(f'provided Iterator::{op} over a crate iterator: more than {bound} items')
+            for c1, o in E.call_value(st_cur, nxt, [a[0]]):
+                p1 = z3.simplify(z3.And(pre, c1))
+                if z3.is_false(p1): continue
+                if o.kind != 'ret':
+                    results.append((p1, Panic(str(o.value)), o.st)); continue
+                item = o.value
+                if item.variant == 'None':
+                    results.append((p1, {'find': NONE, 'any': FALSE, 'all': T}[op], o.st)); continue
+                x = item.fields[0]
+                arg = E.root_ref(o.st, x) if op == 'find' else x
+                for c2, o2 in E.call_value(o.st, clo, [arg]):
+                    p2 = z3.simplify(z3.And(p1, c2))
+                    if z3.is_false(p2): continue
+                    if o2.kind != 'ret':
+                        results.append((p2, Panic(str(o2.value)), o2.st)); continue
+                    r = o2.value
+                    ct, cf = z3.simplify(z3.And(p2, r)), z3.simplify(z3.And(p2, z3.Not(r)))
+                    stop_c, stop_v, go_c = (ct, some(x), cf) if op == 'find' else (ct, T, cf) if op == 'any' else (cf, FALSE, ct)
+                    if not z3.is_false(stop_c): results.append((stop_c, stop_v, o2.st))
+                    if not z3.is_false(go_c) and E.feasible(list(st.pc) + [go_c]): rec(o2.st, n + 1, go_c)
+        rec(st, 0, T)
+        out = []
+        for c, v, s_after in results:
+            def eff(st2, s_after=s_after):
+                st2.heap = dict(s_after.heap)
+                for fid, fr in s_after.fmap.items():
+                    if fid in st2.fmap: st2.fmap[fid].locs = dict(fr.locs)
+                st2.notes = s_after.notes
+            out.append((c, v, eff))
+        return out
+
+    def adopt_state(st2, s_after):
+        st2.heap = dict(s_after.heap)
+        for fid, fr in s_after.fmap.items():
+            if fid in st2.fmap: st2.fmap[fid].locs = dict(fr.locs)
+
+    def flat_map_now(E, st, rest, clo):
+        """apply the closure to every element (concrete count), concatenate the iterators it returns"""
+        acc = [(T, (), st)]
+        for x in rest:
+            nxt = []
+            for c0, vals, s0 in acc:
+                for cond, o in E.call_value(s0, clo, [x]):
+                    cc = z3.simplify(z3.And(c0, cond))
+                    if z3.is_false(cc): continue
+                    if o.kind != 'ret':
+                        raise Inconclusive('flat_map closure panics: ' + str(o.value))
+                    sub_it = d(o.st, o.value)
+                    if isinstance(sub_it, Obj) and sub_it.kind == 'SeqIter':
+                        more = sub_it.data[0][sub_it.data[1]:]
+                    elif isinstance(sub_it, Adt) and sub_it.ty.endswith('Option'):
+                        more = tuple(sub_it.fields[:1]) if sub_it.variant == 'Some' else ()
+                    elif isinstance(sub_it, (Seq,)) or isinstance(sub_it, Obj) and sub_it.kind == 'Vec':
+                        more = tuple(items_of(o.st, sub_it))
+                    else:
+                        raise Inconclusive('flat_map over ' + repr(sub_it))
+                    nxt.append((cc, vals + tuple(more), o.st))
+            acc = nxt
+        return acc
+
     def lazy_adaptor(E, st, callee, a, op, rest):
+        if op == 'flat_map':
+            res = []
+            for c, vals, s_after in flat_map_now(E, st, rest, a[1]):
+                res.append((c, Obj('SeqIter', (tuple(vals), 0)), (lambda st2, s_after=s_after: adopt_state(st2, s_after))))
+            return res
         if op == 'map':
             return [(T, Obj('MapIter', (tuple(rest), a[1])))]
         if op == 'filter':
@@ -194,6 +276,38 @@ def register(E):
         tgt = t[0] if t else ''
         if tgt.startswith('std::vec::Vec'):
             return [(T, Obj('Vec', tuple(rest)))]
+        if tgt.startswith('std::collections::BTreeSet') or tgt.startswith('std::collections::HashSet'):
+            # de-duplicate by (possibly symbolic) equality: fork on each comparison
+            from .core_models import deep_eq
+            acc = [(T, ())]
+            for x in rest:
+                nxt = []
+                for c0, kept in acc:
+                    dup = z3.simplify(z3.Or(*[deep_eq(E, st, x, y) for y in kept])) if kept else FALSE
+                    cd, cn = z3.simplify(z3.And(c0, dup)), z3.simplify(z3.And(c0, z3.Not(dup)))
+                    if not z3.is_false(cd): nxt.append((cd, kept))
+                    if not z3.is_false(cn): nxt.append((cn, kept + (x,)))
+                acc = nxt
+            return [(c, Obj('Set', kept)) for c, kept in acc]
+        if tgt.startswith('std::result::Result'):
+            # Result<C, E>: FromIterator<Result<A, E>>: first Err wins, otherwise the inner collection
+            inner = tgt[len('std::result::Result<'):-1]
+            from ..mirparse import split_top
+            inner_ty = split_top(inner)[0]
+            vals = []
+            for x in rest:
+                x = d(st, x)
+                if x.variant == 'Err':
+                    return [(T, x)]
+                vals.append(x.fields[0])
+            sub = collect(E, st, 'collect::<' + inner_ty + '>', vals)
+            return [(c, ok(v)) + tuple(r) for (c, v, *r) in sub]
+        if tgt.startswith('std::collections::BTreeMap') or tgt.startswith('std::collections::HashMap'):
+            ents = []
+            for t in rest:
+                t = d(st, t)
+                ents.append((t.fields[0], t.fields[1]))
+            return [(T, E.mk_map('BTreeMap', ents))]
         if tgt.startswith('std::string::String'):
             from .str_models import concat
             parts = []
@@ -260,8 +374,8 @@ def register(E):
             if isinstance(vals, Panic):
                 res.append((c, vals)); continue
             if op == 'collect':
-                r = E.collect(E, s_after, callee, vals)[0][1]
-                res.append((c, r, eff))
+                for co in E.collect(E, s_after, callee, vals):
+                    res.append((z3.simplify(z3.And(c, co[0])), co[1], eff))
             elif op in ('count',):
                 res.append((c, I(len(vals), 64), eff))
             else:
